@@ -136,6 +136,11 @@ class Ctx:
                 gc.collect()
             elif kind == 'advance':
                 world.clock.now += float(action.get('dt', 1.0))
+            elif kind == 'deliver':
+                # the delivery agent drops a file at scheduler position 'at'
+                f = {k: v for k, v in action.items() if k != 'sess'}
+                f.setdefault('at', 0)
+                faults.append(f)
             elif cl is None:
                 self.skipped += 1
             elif kind in ('reset', 'eof', 'hold', 'unhold', 'cancel'):
